@@ -124,7 +124,7 @@ class Walker:
     def __init__(self, F, body, *, on_stmt=None, on_term=None, on_edge=None, pure_calls=None,
                  after_stmt=None, call_result=None,
                  max_states=400000, arith=False, ordered_marks=False, want_ret=False,
-                 inline_eq_derive=True, max_marks=64):
+                 inline_eq_derive=True, max_marks=64, ret_prefixes=("0",)):
         self.F = F
         self.body = body
         self.on_stmt = on_stmt
@@ -141,6 +141,7 @@ class Walker:
         self.want_ret = want_ret
         self.inline_eq_derive = inline_eq_derive
         self.max_marks = max_marks
+        self.ret_prefixes = tuple(ret_prefixes)
         self.states_explored = 0
         self.edges_taken = set()
 
@@ -447,17 +448,17 @@ class Walker:
                 elif s["k"] == "dead":
                     env.kill(str(s["l"]))
             if stopped:
-                outcomes.add(("stop", self._freeze_marks(marks_l), None))
+                outcomes.add(("stop", self._freeze_marks(marks_l), self._snapshot(env) if self.want_ret else None))
                 continue
             t = block["t"]
             if self.on_term:
                 m = self.on_term(self, bb, t, env)
                 if m is STOP:
-                    outcomes.add(("stop", self._freeze_marks(marks_l), None))
+                    outcomes.add(("stop", self._freeze_marks(marks_l), self._snapshot(env) if self.want_ret else None))
                     continue
                 if isinstance(m, tuple) and len(m) == 2 and m[0] is STOP:
                     self._add_mark(marks_l, m[1])
-                    outcomes.add(("stop", self._freeze_marks(marks_l), None))
+                    outcomes.add(("stop", self._freeze_marks(marks_l), self._snapshot(env) if self.want_ret else None))
                     continue
                 if m is not None:
                     self._add_mark(marks_l, m)
@@ -469,7 +470,7 @@ class Walker:
                     if getattr(self, "_full_ret", False):
                         ret = tuple(sorted(env.items()))
                     else:
-                        ret = tuple(sorted((k, v) for k, v in env.items() if _prefix_match(k, "0")))
+                        ret = self._snapshot(env)
                 outcomes.add((kind if kind in ("return", "unreachable") else "diverge:" + kind,
                               self._freeze_marks(marks_l), ret))
                 continue
@@ -485,6 +486,11 @@ class Walker:
                     seen.add(st)
                     stack.append(st)
         return outcomes
+
+    def _snapshot(self, env):
+        return tuple(sorted((k, v) for k, v in env.items()
+                            if any((_prefix_match(k, p) if p.isdigit() else k.startswith(p))
+                                   for p in self.ret_prefixes)))
 
     def _add_mark(self, marks, m):
         if self.ordered:
@@ -585,6 +591,17 @@ class Walker:
         name = callee_name(t)
         args = [self.val(env, x) for x in t["xs"]]
         dst = self.norm(env, t["dst"])
+        # a &mut reference passed to a call may modify its referent
+        for x, v in zip(t["xs"], args):
+            if isinstance(v, tuple) and v[0] == "ref" and x["k"] in ("copy", "move"):
+                ty = self.body.ty(x["t"])
+                if ty["k"] == "ref" and ty.get("m") and not (name in self.pure):
+                    env.kill(v[1])
+        # moved-from argument locals are dead afterwards
+        for x in t["xs"]:
+            if x["k"] == "move" and not x["p"]:
+                env.kill(str(x["l"]))
+        env.kill(dst)
         result = None
         if name is not None:
             fn = self.pure.get(name)
@@ -594,18 +611,6 @@ class Walker:
                 result = self._derived_eq(env, args)
         if result is None and self.call_result is not None:
             result = self.call_result(self, bb, t, env, args)
-        # a &mut reference passed to an unknown call may modify its referent
-        if result is None or True:
-            for x, v in zip(t["xs"], args):
-                if isinstance(v, tuple) and v[0] == "ref":
-                    ty = None
-                    if x["k"] in ("copy", "move"):
-                        ty = self.body.ty(x["t"])
-                    if ty is not None and ty["k"] == "ref" and ty.get("m"):
-                        if result is None:
-                            env.kill(v[1])
-        # moved-from operands are dead afterwards; leave them (harmless)
-        env.kill(dst)
         if result is not None:
             env[dst] = result
         if t["t"] is None:
